@@ -383,4 +383,12 @@ def canon (s : Bytes) : Bytes := trimR ((cstr s).map canonCh)
 
 def titleMatch (t l : Bytes) : Bool := canon t == canon l
 
+/-- the string does not end in a blank (what both library normalisations guarantee) -/
+def noTrailingSpace (s : Bytes) : Bool := trimR (cstr s) == cstr s
+
+/-- The relation for titles that went through the library's normalisation on both sides (every
+loader except ProWizard, whose detector reports the raw bytes): same canonical form, and
+neither side keeps trailing blanks. -/
+def titleMatchStrict (t l : Bytes) : Bool := titleMatch t l && noTrailingSpace t && noTrailingSpace l
+
 end Xmp.TestLoad
